@@ -162,7 +162,7 @@ def small_tables(dlm, tier):
 def random_table(rng, dlm, latin_only):
     alpha = alphabet(dlm) + ['b', 'c', '0', '""', dlm, dlm, ' ', 'x y', '#']
     if not latin_only:
-        alpha += ['€', '😀', ' ', '\ufeff', '\ufeffb']      # a byte-order mark is special only at the very start of the input; anywhere else it is data
+        alpha += ['€', '😀', ' ', '\ufeff', '\ufeffb', '\ufffd', '\ufffd', '\uffff', '\u2028', 'e\u0301']      # a byte-order mark is special only at the very start of the input; anywhere else it is data
     else:
         alpha += ['\xff', '\xa0', '\x00', '\x7f', '\xef\xbb\xbf', '\xef\xbb\xbfb']
     nrec = rng.randrange(1, 6)
